@@ -294,6 +294,8 @@ class HeapMixin(object):
       terms.append(z3.Select(z3.Select(a, lst.t), idx))
     v = from_terms(terms, ety)
     self.note_read(st, v)
+    if ety.k == 'bytes' and not self.spec_depth:
+      st.assume(v.py[0][2] >= 0)
     return v
 
   def list_set(self, st, lst, idx, val):
